@@ -19,7 +19,10 @@
 (*                      at/before that instant                             *)
 (*  G_C07_Consolidatable every write that turns Consolidatable True is     *)
 (*                      justified (consolidateAfter elapsed since the last *)
-(*                      pod event, initialized, dynamic pool)              *)
+(*                      pod event, initialized, dynamic pool); and at      *)
+(*                      every consolidation / emptiness command the        *)
+(*                      condition's truth for candidates the controller    *)
+(*                      has reconciled since the last relevant change      *)
 (***************************************************************************)
 EXTENDS DisruptionGuards, Json, IOUtils
 
@@ -32,17 +35,32 @@ Chk(ok, guard, sig) == IF ok THEN <<>> ELSE <<[line |-> l, guard |-> guard, sig 
 
 NoWorld == [exists |-> FALSE, pools |-> <<>>, claims |-> <<>>, nodes |-> <<>>, pods |-> <<>>, pdbs |-> <<>>]
 St0(cfg) == [cfg |-> cfg, world |-> NoWorld, marked |-> {}, nominated |-> {}, buffer |-> {}, inflight |-> {},
-             ctrue |-> {}]
+             ctrue |-> {}, fresh |-> {}]
 
 TraceInit == l = 1 /\ st = St0([nominationWindow |-> 20]) /\ viol = <<>> /\ ntr = 0 /\ done = FALSE
 
 Ghost == [marked |-> st.marked \cup st.inflight, nominated |-> st.nominated, buffer |-> st.buffer,
           window |-> st.cfg.nominationWindow]
 
+\* ---- the Consolidatable condition's TRUTH at the decision: for a candidate of a consolidation / emptiness command whose
+\* NodeClaim the nodeclaim-disruption controller has reconciled since the last relevant change (st.fresh: no write to the
+\* NodeClaim by anyone else and no NodePool edit since; before that the condition may legitimately lag), the pool's
+\* CURRENT consolidateAfter must have elapsed since the last pod event (since initialization without one)
+AtDecision(cand, t) ==
+    LET W == st.world
+        c == At(W.claims, {i \in DOMAIN W.claims : W.claims[i].name = cand.claim})
+        pool == IF c.exists THEN At(W.pools, {i \in DOMAIN W.pools : W.pools[i].name = c.pool}) ELSE NoObj
+        judged == /\ cand.claim \in st.fresh /\ c.exists /\ c.initialized = "True"
+                  /\ pool.exists /\ ~pool.static /\ pool.consolidateAfter >= 0
+    IN IF ~judged THEN <<>>
+       ELSE Chk(t - ConsolidatableRef(c.lastPodEvent, c.initializedAt) >= pool.consolidateAfter, "G_C07_Consolidatable",
+                IF c.lastPodEvent >= 0 THEN "at-command:since-pod-event" ELSE "at-command:since-initialized")
+
 \* ---- a command: every candidate must be eligible for the command's method now
 CmdChecks(cmd) ==
     LET chk(i) == LET v == ViewOf(cmd.candidates[i], st.world, Ghost) IN
                   Chk(G_C07_Eligible(cmd.method, v, cmd.t), "G_C07_Eligible", Sig(cmd.method, v, cmd.t))
+                  \o (IF Consolidation(cmd.method) THEN AtDecision(cmd.candidates[i], cmd.t) ELSE <<>>)
         RECURSIVE all(_)
         all(i) == IF i > Len(cmd.candidates) THEN <<>> ELSE chk(i) \o all(i + 1)
     IN IF cmd.method \in Methods THEN all(1) ELSE <<>>
@@ -70,7 +88,10 @@ TEnv == /\ Ev.e = "Env"
                    [] Ev.what = "Nominate" -> [st EXCEPT !.nominated = @ \cup {<<Ev.name, Ev.t>>}]
                    [] Ev.what = "Buffer"   -> [st EXCEPT !.buffer = {x \in @ : x[1] # Ev.name} \cup {<<Ev.name, Ev.n>>}]
                    [] OTHER -> IF Ev.kind = "NodeClaim" /\ Ev.post.exists
-                               THEN [st EXCEPT !.ctrue = IF Ev.post.consolidatable = "True" THEN @ \cup {Ev.name} ELSE @ \ {Ev.name}]
+                               THEN [st EXCEPT !.ctrue = IF Ev.post.consolidatable = "True" THEN @ \cup {Ev.name} ELSE @ \ {Ev.name},
+                                               !.fresh = @ \ {Ev.name}]
+                               ELSE IF Ev.kind = "NodeClaim" THEN [st EXCEPT !.fresh = @ \ {Ev.name}]
+                               ELSE IF Ev.kind = "NodePool" THEN [st EXCEPT !.fresh = {}]
                                ELSE st
         /\ UNCHANGED viol
 
@@ -94,17 +115,25 @@ TApi == /\ Ev.e = "Api"
                nowTrue == isClaim /\ Ev.post.consolidatable = "True"
                newly == nowTrue /\ Ev.verb # "create" /\ name \notin st.ctrue
            IN /\ viol' = viol \o (IF newly THEN ConsolidatableCheck(name) ELSE <<>>)
-              /\ st' = [st EXCEPT !.ctrue = IF isClaim THEN (IF nowTrue THEN @ \cup {name} ELSE @ \ {name}) ELSE @]
+              /\ st' = [st EXCEPT !.ctrue = IF isClaim THEN (IF nowTrue THEN @ \cup {name} ELSE @ \ {name}) ELSE @,
+                                  \* anyone else writing the NodeClaim (pod-event stamp, status...) or a NodePool makes the condition stale
+                                  !.fresh = IF Ev.kind = "NodePool" /\ Ev.verb # "get" THEN {}
+                                            ELSE IF Ev.kind = "NodeClaim" /\ Ev.actor # "nodeclaim.disruption"
+                                                 THEN @ \ {name, Ev.name} ELSE @]
 
 TRestart == /\ Ev.e = "Restart"
             /\ st' = [st EXCEPT !.marked = {}, !.nominated = {}, !.buffer = {}, !.inflight = {}]
             /\ UNCHANGED viol
-TOther == Ev.e \in {"Tick", "Begin", "End", "Cands", "Budget", "Obj", "Note", "Prov", "Read", "Mem"} /\ UNCHANGED <<st, viol>>
+\* the nodeclaim-disruption controller finished a reconcile of a NodeClaim: its condition is up to date again
+TEnd == /\ Ev.e = "End"
+        /\ st' = IF Ev.controller = "nodeclaim.disruption" /\ Ev.err = "-" THEN [st EXCEPT !.fresh = @ \cup {Ev.object}] ELSE st
+        /\ UNCHANGED viol
+TOther == Ev.e \in {"Tick", "Begin", "Cands", "Budget", "Obj", "Note", "Prov", "Read", "Mem"} /\ UNCHANGED <<st, viol>>
 
 TraceNext ==
     \/ /\ l <= Len(Trace) /\ l' = l + 1 /\ UNCHANGED done
        /\ \/ (Ev.e = "Cfg" /\ st' = St0(Ev) /\ ntr' = ntr + 1 /\ UNCHANGED viol)
-          \/ ((TWorld \/ TCmd \/ TQCmd \/ TEnv \/ TApi \/ TRestart \/ TOther) /\ UNCHANGED ntr)
+          \/ ((TWorld \/ TCmd \/ TQCmd \/ TEnv \/ TApi \/ TRestart \/ TEnd \/ TOther) /\ UNCHANGED ntr)
     \/ /\ l = Len(Trace) + 1 /\ ~done /\ done' = TRUE
        /\ JsonSerialize(IOEnv.OUT, [viol |-> viol, consumed |-> l - 1, traces |-> ntr])
        /\ UNCHANGED <<l, st, viol, ntr>>
